@@ -170,6 +170,20 @@ StepSpawn(s0, ev, ln) ==
      ELSE LET pred == DoSpawn(pre, T)
           IN Add([s0 EXCEPT !.st = pred], ln, (IF ev.r # "ok" THEN {"panic"} ELSE {}) \cup ObsClauses(s0, pred, ev), {})
 
+\* a parked task is woken from outside and will drop its pending operation
+StepAbandon(s0, ev, ln) ==
+  LET pre == s0.st  t == ev.t IN
+  IF ev.r # "ok" \/ pre.pc # "idle" \/ Join \/ t \notin Tasks THEN Outside(s0, ev, ln)
+  ELSE IF pre.ts[t] # "parked" THEN Add(s0, ln, {"Mismatch_task_state"}, {})
+  ELSE LET pred == DoAbandon(pre, t)
+       IN Add([s0 EXCEPT !.st = pred], ln, ObsClauses(s0, pred, ev), {})
+
+StepAbandoned(s0, ev, ln) ==
+  LET pre0 == s0.st  t == ev.t IN
+  IF t \notin Tasks \/ pre0.pc # "exec" \/ pre0.ts[t] # "runnable" \/ ~pre0.abn[t] THEN Add(s0, ln, {"Mismatch_poll_unexpected"}, {})
+  ELSE Add([s0 EXCEPT !.st = Abandoned([pre0 EXCEPT !.runq = ToFront(@, t)], t)], ln,
+           IF Head(pre0.runq) # t THEN {"Mismatch_run_order"} ELSE {}, {})
+
 StepPeer(s0, ev, ln) ==
   LET pre == s0.st  p == ev.p IN
   IF ev.r = "misuse" \/ p \notin Ends \/ pre.ad[p].live THEN Outside(s0, ev, ln)
@@ -235,7 +249,10 @@ StepExecBegin(s0, ev, ln) ==
 StepPoll(s0, ev, ln) ==
   LET pre0 == s0.st  t == ev.t IN
   IF ev.r = "noadapter" \/ t \notin Tasks THEN Outside(s0, ev, ln)
-  ELSE IF pre0.pc # "exec" \/ pre0.ts[t] # "runnable" THEN Add(s0, ln, {"Mismatch_poll_unexpected"}, {})
+  \* one waker per direction: a second task starting to wait for a direction that another task of the adapter is waiting
+  \* for is outside the protocol (reached when the real order of a batch differs from the model's behaviour)
+  ELSE IF pre0.cur[t] = NoOp /\ BitBusy(pre0, t, WaitBit(ev.op)) THEN Outside(s0, ev, ln)
+  ELSE IF pre0.pc # "exec" \/ pre0.ts[t] # "runnable" \/ pre0.abn[t] THEN Add(s0, ln, {"Mismatch_poll_unexpected"}, {})
   ELSE
   LET pre  == [pre0 EXCEPT !.runq = ToFront(@, t)]
       op   == [k |-> ev.op, n |-> ev.n]
@@ -313,6 +330,8 @@ Step(s0, ev, ln) ==
          [] ev.e = "adapt2"     -> StepAdaptAgain(s0, ev, ln)
          [] ev.e = "drop"       -> StepDrop(s0, ev, ln)
          [] ev.e = "spawn"      -> StepSpawn(s0, ev, ln)
+         [] ev.e = "abandon"    -> StepAbandon(s0, ev, ln)
+         [] ev.e = "abandoned"  -> StepAbandoned(s0, ev, ln)
          [] ev.e = "peer"       -> StepPeer(s0, ev, ln)
          [] ev.e = "batch"      -> StepBatch(s0, ev, ln)
          [] ev.e = "io"         -> StepIoEv(s0, ev, ln)
